@@ -58,7 +58,14 @@ def concretise(schema, labels, rnd):
             b = books[args[0] - 1]
             k = rnd.random()
             act = None
-            if k < 0.3 or not b.live:
+            if k < 0.15:
+                # another loader that holds rows only populates this metamodel (ModelLoader.populate)
+                rows = c03.random_population(schema, rnd, rnd.randint(1, 4))
+                for r in rows:
+                    b.born[r['c']] += 1
+                    b.live.append((r['c'], b.born[r['c']]))
+                act = ['LoadInto', rows]
+            elif k < 0.3 or not b.live:
                 c = rnd.choice(schema['classes'])
                 b.born[c] += 1
                 b.live.append((c, b.born[c]))
@@ -228,7 +235,8 @@ def check(tier, replay_path=None):
                 if a[0] == 'Input':
                     for r in a[1].get('rows', []):
                         n[r['c']] = n.get(r['c'], 0) + 1
-            extra = sum(1 for a in run['acts'] if a[0] == 'Mutate' and a[2][0] == 'New')
+            extra = sum(1 for a in run['acts'] if a[0] == 'Mutate' and a[2][0] == 'New') + \
+                sum(len(a[2][1]) for a in run['acts'] if a[0] == 'Mutate' and a[2][0] == 'LoadInto')
             maxi = max([maxi] + [v + extra for v in n.values()] + [extra])
         # (generator kind uuid: ids only have to be fresh; a third of the builds use the generator the loader provides)
         mod, consts = metacheck.trace_files(schema, maxi, 'uuid')
@@ -261,7 +269,7 @@ def check(tier, replay_path=None):
            'tour_edges_total': total, 'calls_per_outcome': outcomes,
            'rule': 'one evaluation = one call (input, build, mutation of some built metamodel, schema change of a metamodel) seen from '
                    'one built metamodel: the projection of that metamodel (schema, pools, values, links) recorded after every call '
-                   'is validated by TLC: its own build = Meta!LoadBuild of the rows accepted so far, its own mutations = Meta actions, '
+                   'is validated by TLC: its own build = Meta!LoadBuild of the rows accepted so far, its own mutations = Meta actions (also Meta!LoadInto: another loader populates it), '
                    'every other call = no change at all; distinct by (schema, focus model, schedule)',
            'samples': samples or [{'note': 'none'}],
            'model': 'Builds.tla (once with the schema chunk first, once with Late = TRUE: the schema chunk anywhere or never, classes inferred) enumerates every interleaving of 3 input chunks, up to 2 (quick) / 3 (thorough) builds and up to 2 '
